@@ -22,7 +22,7 @@ class Record:
     __slots__ = ('status', 'trace', 'outcomes', 'decisions', 'steps', 'ticks', 'vtime', 'leftover',
                  'after_done_handles', 'fault_hits', 'max_pending', 'out_of_order', 'digest',
                  'input_after', 'snap_before', 'snap_after', 'sched', 'done_seq', 'exc_reports',
-                 'complete_results', 'results', 'gate_count', 'snaps', 'pending_nodes', 'probes')
+                 'complete_results', 'results', 'gate_count', 'snaps', 'pending_nodes', 'probes', 'max_lag')
 
     def __init__(self):
         for s in self.__slots__:
@@ -133,6 +133,7 @@ def run_case(case: dict, scheduler, set_seed: int = 0, step_cap: int = 20000, ke
         rec.max_pending = sim.__dict__.get('max_pending', 0)
         rec.out_of_order = sim.out_of_order
         rec.gate_count = sim.gate_count
+        rec.max_lag = sim.max_lag
         rec.input_after = inputs
         rec.done_seq = sim.done_seq
         rec.exc_reports = sim.loop.exc_reports
